@@ -1,0 +1,342 @@
+//go:build verif
+
+// Contracts for the gvc verification engine (/verif). This file contains only
+// comments: it is data for the verifier and is never compiled into the package
+// (the build tag keeps it out of normal builds; with the tag it adds nothing).
+package go9p
+
+//@ func pint8(val, buf) (r)
+//@   property C01
+//@   requires len(buf) >= 1
+//@   ensures  u8(buf, 0) == val
+//@   ensures  r == buf[1:]
+//@   assigns  buf[0:1]
+
+//@ func pint16(val, buf) (r)
+//@   property C01
+//@   requires len(buf) >= 2
+//@   ensures  u16le(buf, 0) == val
+//@   ensures  r == buf[2:]
+//@   assigns  buf[0:2]
+
+//@ func pint32(val, buf) (r)
+//@   property C01
+//@   requires len(buf) >= 4
+//@   ensures  u32le(buf, 0) == val
+//@   ensures  r == buf[4:]
+//@   assigns  buf[0:4]
+
+//@ func pint64(val, buf) (r)
+//@   property C01
+//@   requires len(buf) >= 8
+//@   ensures  u64le(buf, 0) == val
+//@   ensures  r == buf[8:]
+//@   assigns  buf[0:8]
+
+//@ func gint8(buf) (v, r)
+//@   property C01 C02
+//@   requires len(buf) >= 1
+//@   ensures  v == u8(buf, 0) && r == buf[1:]
+//@   assigns  nothing
+
+//@ func gint16(buf) (v, r)
+//@   property C01 C02
+//@   requires len(buf) >= 2
+//@   ensures  v == u16le(buf, 0) && r == buf[2:]
+//@   assigns  nothing
+
+//@ func gint32(buf) (v, r)
+//@   property C01 C02
+//@   requires len(buf) >= 4
+//@   ensures  v == u32le(buf, 0) && r == buf[4:]
+//@   assigns  nothing
+
+//@ func gint64(buf) (v, r)
+//@   property C01 C02
+//@   requires len(buf) >= 8
+//@   ensures  v == u64le(buf, 0) && r == buf[8:]
+//@   assigns  nothing
+
+//@ func Gint32(buf) (v, r)
+//@   property C01 C02 C13
+//@   requires len(buf) >= 4
+//@   ensures  v == u32le(buf, 0) && r == buf[4:]
+//@   assigns  nothing
+
+// ---------------------------------------------------------------------------
+// Wire layout predicates (written from intro(5) and the 9P2000.u text, not from the code).
+// All integers little-endian; str = n[2] bytes[n]; qid = type[1] version[4] path[8].
+
+//@ pure wstr(b, o, s) = u16le(b, o) == len(s) && streq(s, b, o+2)
+//@ pure wqid(b, o, q) = u8(b, o) == q.Type && u32le(b, o+1) == q.Version && u64le(b, o+5) == q.Path
+//@ pure nl(d) = len(d.Name) + len(d.Uid) + len(d.Gid) + len(d.Muid)
+//@ pure statsize(d, dotu) = 49 + nl(d) + ite(dotu, 14 + len(d.Ext), 0)
+//@ pure strsok(d) = len(d.Name) <= 65535 && len(d.Uid) <= 65535 && len(d.Gid) <= 65535 && len(d.Muid) <= 65535 && len(d.Ext) <= 65535
+//@ pure wstat(b, o, d, dotu) = u16le(b, o) == statsize(d, dotu) - 2 && u16le(b, o+2) == d.Type && u32le(b, o+4) == d.Dev
+//@      && wqid(b, o+8, d.Qid) && u32le(b, o+21) == d.Mode && u32le(b, o+25) == d.Atime && u32le(b, o+29) == d.Mtime
+//@      && u64le(b, o+33) == d.Length && wstr(b, o+41, d.Name) && wstr(b, o+43+len(d.Name), d.Uid)
+//@      && wstr(b, o+45+len(d.Name)+len(d.Uid), d.Gid) && wstr(b, o+47+len(d.Name)+len(d.Uid)+len(d.Gid), d.Muid)
+//@      && (dotu ==> wstr(b, o+49+nl(d), d.Ext) && u32le(b, o+51+nl(d)+len(d.Ext)) == d.Uidnum
+//@                   && u32le(b, o+55+nl(d)+len(d.Ext)) == d.Gidnum && u32le(b, o+59+nl(d)+len(d.Ext)) == d.Muidnum)
+// header: size[4] type[1] tag[2]; size equals the packet length
+//@ pure hdr(fc, n, t) = fc.Size == n && fc.Type == t && fc.Tag == 65535 && fc.Pkt == fc.Buf[0:n]
+//@      && u32le(fc.Buf, 0) == n && u8(fc.Buf, 4) == t && u16le(fc.Buf, 5) == 65535
+
+//@ func pstr(val, buf) (r)
+//@   property C01
+//@   requires len(val) <= 65535
+//@   requires len(buf) >= 2 + len(val)
+//@   ensures  u16le(buf, 0) == len(val)
+//@   ensures  streq(val, buf, 2)
+//@   ensures  r == buf[2+len(val):]
+//@   assigns  buf[0:2+len(val)]
+
+//@ func gstr(buf) (s, r)
+//@   property C01 C02
+//@   ensures  len(buf) >= 2 && u16le(buf, 0) <= len(buf) - 2 ==> len(s) == u16le(buf, 0) && streq(s, buf, 2) && r == buf[2+len(s):]
+//@   ensures  !(len(buf) >= 2 && u16le(buf, 0) <= len(buf) - 2) ==> r == nil && len(s) == 0
+//@   ensures  len(s) <= 65535
+//@   assigns  nothing
+
+//@ func pqid(val, buf) (r)
+//@   property C01
+//@   requires val != nil && len(buf) >= 13
+//@   ensures  wqid(buf, 0, val)
+//@   ensures  r == buf[13:]
+//@   assigns  buf[0:13]
+
+//@ func gqid(buf, qid) (r)
+//@   property C01 C02
+//@   requires qid != nil && len(buf) >= 13
+//@   ensures  wqid(buf, 0, qid)
+//@   ensures  r == buf[13:]
+//@   assigns  all(qid)
+
+//@ func statsz(d, dotu) (n)
+//@   property C01
+//@   requires d != nil && strsok(d)
+//@   ensures  n == statsize(d, dotu)
+//@   assigns  nothing
+
+//@ func pstat(d, buf, dotu) (r)
+//@   property C01
+//@   requires d != nil && strsok(d) && statsize(d, dotu) <= 65537
+//@   requires len(buf) >= statsize(d, dotu)
+//@   ensures  wstat(buf, 0, d, dotu)
+//@   ensures  r == buf[statsize(d, dotu):]
+//@   assigns  buf[0:statsize(d, dotu)]
+
+//@ func PackDir(d, dotu) (b)
+//@   property C01
+//@   requires d != nil && strsok(d) && statsize(d, dotu) <= 65537
+//@   ensures  len(b) == statsize(d, dotu) && wstat(b, 0, d, dotu) && fresh(b)
+//@   assigns  fresh
+
+//@ func NewFcall(sz) (fc)
+//@   property C01
+//@   ensures  fc != nil && fresh(fc) && len(fc.Buf) == sz && fresh(fc.Buf)
+//@   assigns  fresh
+
+//@ func SetTag(fc, tag)
+//@   property C01 C03
+//@   requires fc != nil && len(fc.Pkt) >= 7
+//@   ensures  fc.Tag == tag && u16le(fc.Pkt, 5) == tag
+//@   ensures  mem_unchanged_except(fc.Pkt, 5, 7)
+//@   assigns  fc.Tag, fc.Pkt[5:7]
+
+//@ func packCommon(fc, size, id) (p, err)
+//@   property C01 C12
+//@   requires fc != nil && 0 <= size && size <= 4294967288
+//@   ensures  err == nil <==> len(fc.Buf) >= size + 7
+//@   ensures  err == nil ==> hdr(fc, size+7, id) && p == fc.Buf[7:]
+//@   ensures  err != nil ==> p == nil && fc.Size == old(fc.Size) && fc.Type == old(fc.Type) && fc.Tag == old(fc.Tag) && fc.Pkt == old(fc.Pkt)
+//@   ensures  mem_unchanged_except(fc.Buf, 0, ite(err == nil, 7, 0))
+//@   assigns  fc.Size, fc.Type, fc.Tag, fc.Pkt, fc.Buf[0:7]
+
+// ---------------------------------------------------------------------------
+// Message constructors. Type numbers and offsets are the protocol's, written as literals.
+
+//@ pure qideq(a, b) = a.Type == b.Type && a.Version == b.Version && a.Path == b.Path
+//@ pure direq(a, b) = a.Size == b.Size && a.Type == b.Type && a.Dev == b.Dev && qideq(a.Qid, b.Qid) && a.Mode == b.Mode
+//@      && a.Atime == b.Atime && a.Mtime == b.Mtime && a.Length == b.Length && a.Name == b.Name && a.Uid == b.Uid
+//@      && a.Gid == b.Gid && a.Muid == b.Muid && a.Ext == b.Ext && a.Uidnum == b.Uidnum && a.Gidnum == b.Gidnum && a.Muidnum == b.Muidnum
+
+//@ func PackTversion(fc, msize, version) (err)
+//@   property C01
+//@   requires fc != nil && len(version) <= 65535
+//@   ensures  err == nil <==> len(fc.Buf) >= 13 + len(version)
+//@   ensures  err == nil ==> hdr(fc, 13+len(version), 100) && u32le(fc.Pkt, 7) == msize && wstr(fc.Pkt, 11, version)
+//@   ensures  err == nil ==> fc.Msize == msize && fc.Version == version
+//@   assigns  fc.Size, fc.Type, fc.Tag, fc.Pkt, fc.Msize, fc.Version, fc.Buf[0:13+len(version)]
+
+//@ func PackRversion(fc, msize, version) (err)
+//@   property C01 C12
+//@   requires fc != nil && len(version) <= 65535
+//@   ensures  err == nil <==> len(fc.Buf) >= 13 + len(version)
+//@   ensures  err == nil ==> hdr(fc, 13+len(version), 101) && u32le(fc.Pkt, 7) == msize && wstr(fc.Pkt, 11, version)
+//@   ensures  err == nil ==> fc.Msize == msize && fc.Version == version
+//@   assigns  fc.Size, fc.Type, fc.Tag, fc.Pkt, fc.Msize, fc.Version, fc.Buf[0:13+len(version)]
+
+//@ pure tauthsz(uname, aname, dotu) = 15 + len(uname) + len(aname) + ite(dotu, 4, 0)
+//@ func PackTauth(fc, fid, uname, aname, unamenum, dotu) (err)
+//@   property C01
+//@   requires fc != nil && len(uname) <= 65535 && len(aname) <= 65535
+//@   ensures  err == nil <==> len(fc.Buf) >= tauthsz(uname, aname, dotu)
+//@   ensures  err == nil ==> hdr(fc, tauthsz(uname, aname, dotu), 102) && u32le(fc.Pkt, 7) == fid && wstr(fc.Pkt, 11, uname)
+//@                           && wstr(fc.Pkt, 13+len(uname), aname) && (dotu ==> u32le(fc.Pkt, 15+len(uname)+len(aname)) == unamenum)
+//@   ensures  err == nil ==> fc.Fid == fid && fc.Uname == uname && fc.Aname == aname && (dotu ==> fc.Unamenum == unamenum)
+//@   assigns  fc.Size, fc.Type, fc.Tag, fc.Pkt, fc.Fid, fc.Uname, fc.Aname, fc.Unamenum, fc.Buf[0:tauthsz(uname, aname, dotu)]
+
+//@ pure tattachsz(uname, aname, dotu) = 19 + len(uname) + len(aname) + ite(dotu, 4, 0)
+//@ func PackTattach(fc, fid, afid, uname, aname, unamenum, dotu) (err)
+//@   property C01
+//@   requires fc != nil && len(uname) <= 65535 && len(aname) <= 65535
+//@   ensures  err == nil <==> len(fc.Buf) >= tattachsz(uname, aname, dotu)
+//@   ensures  err == nil ==> hdr(fc, tattachsz(uname, aname, dotu), 104) && u32le(fc.Pkt, 7) == fid && u32le(fc.Pkt, 11) == afid
+//@                           && wstr(fc.Pkt, 15, uname) && wstr(fc.Pkt, 17+len(uname), aname)
+//@                           && (dotu ==> u32le(fc.Pkt, 19+len(uname)+len(aname)) == unamenum)
+//@   ensures  err == nil ==> fc.Fid == fid && fc.Afid == afid && fc.Uname == uname && fc.Aname == aname && (dotu ==> fc.Unamenum == unamenum)
+//@   assigns  fc.Size, fc.Type, fc.Tag, fc.Pkt, fc.Fid, fc.Afid, fc.Uname, fc.Aname, fc.Unamenum, fc.Buf[0:tattachsz(uname, aname, dotu)]
+
+//@ func PackTflush(fc, oldtag) (err)
+//@   property C01
+//@   requires fc != nil
+//@   ensures  err == nil <==> len(fc.Buf) >= 9
+//@   ensures  err == nil ==> hdr(fc, 9, 108) && u16le(fc.Pkt, 7) == oldtag && fc.Oldtag == oldtag
+//@   assigns  fc.Size, fc.Type, fc.Tag, fc.Pkt, fc.Oldtag, fc.Buf[0:9]
+
+//@ func PackTopen(fc, fid, mode) (err)
+//@   property C01
+//@   requires fc != nil
+//@   ensures  err == nil <==> len(fc.Buf) >= 12
+//@   ensures  err == nil ==> hdr(fc, 12, 112) && u32le(fc.Pkt, 7) == fid && u8(fc.Pkt, 11) == mode && fc.Fid == fid && fc.Mode == mode
+//@   assigns  fc.Size, fc.Type, fc.Tag, fc.Pkt, fc.Fid, fc.Mode, fc.Buf[0:12]
+
+//@ pure tcreatesz(name, ext, dotu) = 18 + len(name) + ite(dotu, 2 + len(ext), 0)
+//@ func PackTcreate(fc, fid, name, perm, mode, ext, dotu) (err)
+//@   property C01
+//@   requires fc != nil && len(name) <= 65535 && len(ext) <= 65535
+//@   ensures  err == nil <==> len(fc.Buf) >= tcreatesz(name, ext, dotu)
+//@   ensures  err == nil ==> hdr(fc, tcreatesz(name, ext, dotu), 114) && u32le(fc.Pkt, 7) == fid && wstr(fc.Pkt, 11, name)
+//@                           && u32le(fc.Pkt, 13+len(name)) == perm && u8(fc.Pkt, 17+len(name)) == mode
+//@                           && (dotu ==> wstr(fc.Pkt, 18+len(name), ext))
+//@   ensures  err == nil ==> fc.Fid == fid && fc.Name == name && fc.Perm == perm && fc.Mode == mode && (dotu ==> fc.Ext == ext)
+//@   assigns  fc.Size, fc.Type, fc.Tag, fc.Pkt, fc.Fid, fc.Name, fc.Perm, fc.Mode, fc.Ext, fc.Buf[0:tcreatesz(name, ext, dotu)]
+
+//@ func PackTread(fc, fid, offset, count) (err)
+//@   property C01
+//@   requires fc != nil
+//@   ensures  err == nil <==> len(fc.Buf) >= 23
+//@   ensures  err == nil ==> hdr(fc, 23, 116) && u32le(fc.Pkt, 7) == fid && u64le(fc.Pkt, 11) == offset && u32le(fc.Pkt, 19) == count
+//@   ensures  err == nil ==> fc.Fid == fid && fc.Offset == offset && fc.Count == count
+//@   assigns  fc.Size, fc.Type, fc.Tag, fc.Pkt, fc.Fid, fc.Offset, fc.Count, fc.Buf[0:23]
+
+//@ func PackTwrite(fc, fid, offset, count, data) (err)
+//@   property C01
+//@   requires fc != nil && len(data) <= 4294967265 && count == len(data) && obj(data) != obj(fc.Buf)
+//@   ensures  err == nil <==> len(fc.Buf) >= 23 + len(data)
+//@   ensures  err == nil ==> hdr(fc, 23+len(data), 118) && u32le(fc.Pkt, 7) == fid && u64le(fc.Pkt, 11) == offset && u32le(fc.Pkt, 19) == count
+//@                           && byteseqold(fc.Pkt, 23, data, 0, len(data))
+//@   ensures  err == nil ==> fc.Fid == fid && fc.Offset == offset && fc.Count == count && obj(fc.Data) == obj(fc.Pkt) && off(fc.Data) == off(fc.Pkt) + 23 && len(fc.Data) >= len(data)
+//@   assigns  fc.Size, fc.Type, fc.Tag, fc.Pkt, fc.Fid, fc.Offset, fc.Count, fc.Data, fc.Buf[0:23+len(data)]
+
+//@ func PackTclunk(fc, fid) (err)
+//@   property C01
+//@   requires fc != nil
+//@   ensures  err == nil <==> len(fc.Buf) >= 11
+//@   ensures  err == nil ==> hdr(fc, 11, 120) && u32le(fc.Pkt, 7) == fid && fc.Fid == fid
+//@   assigns  fc.Size, fc.Type, fc.Tag, fc.Pkt, fc.Fid, fc.Buf[0:11]
+
+//@ func PackTremove(fc, fid) (err)
+//@   property C01
+//@   requires fc != nil
+//@   ensures  err == nil <==> len(fc.Buf) >= 11
+//@   ensures  err == nil ==> hdr(fc, 11, 122) && u32le(fc.Pkt, 7) == fid && fc.Fid == fid
+//@   assigns  fc.Size, fc.Type, fc.Tag, fc.Pkt, fc.Fid, fc.Buf[0:11]
+
+//@ func PackTstat(fc, fid) (err)
+//@   property C01
+//@   requires fc != nil
+//@   ensures  err == nil <==> len(fc.Buf) >= 11
+//@   ensures  err == nil ==> hdr(fc, 11, 124) && u32le(fc.Pkt, 7) == fid && fc.Fid == fid
+//@   assigns  fc.Size, fc.Type, fc.Tag, fc.Pkt, fc.Fid, fc.Buf[0:11]
+
+//@ func PackTwstat(fc, fid, d, dotu) (err)
+//@   property C01
+//@   requires fc != nil && d != nil && strsok(d) && statsize(d, dotu) <= 65535
+//@   ensures  err == nil <==> len(fc.Buf) >= 13 + statsize(d, dotu)
+//@   ensures  err == nil ==> hdr(fc, 13+statsize(d, dotu), 126) && u32le(fc.Pkt, 7) == fid && u16le(fc.Pkt, 11) == statsize(d, dotu)
+//@                           && wstat(fc.Pkt, 13, d, dotu)
+//@   ensures  err == nil ==> fc.Fid == fid && direq(fc.Dir, d)
+//@   assigns  fc.Size, fc.Type, fc.Tag, fc.Pkt, fc.Fid, all(fc.Dir), fc.Buf[0:13+statsize(d, dotu)]
+
+//@ func PackRauth(fc, aqid) (err)
+//@   property C01
+//@   requires fc != nil && aqid != nil
+//@   ensures  err == nil <==> len(fc.Buf) >= 20
+//@   ensures  err == nil ==> hdr(fc, 20, 103) && wqid(fc.Pkt, 7, aqid) && qideq(fc.Qid, aqid)
+//@   assigns  fc.Size, fc.Type, fc.Tag, fc.Pkt, all(fc.Qid), fc.Buf[0:20]
+
+//@ func PackRattach(fc, aqid) (err)
+//@   property C01
+//@   requires fc != nil && aqid != nil
+//@   ensures  err == nil <==> len(fc.Buf) >= 20
+//@   ensures  err == nil ==> hdr(fc, 20, 105) && wqid(fc.Pkt, 7, aqid) && qideq(fc.Qid, aqid)
+//@   assigns  fc.Size, fc.Type, fc.Tag, fc.Pkt, all(fc.Qid), fc.Buf[0:20]
+
+//@ func PackRflush(fc) (err)
+//@   property C01
+//@   requires fc != nil
+//@   ensures  err == nil <==> len(fc.Buf) >= 7
+//@   ensures  err == nil ==> hdr(fc, 7, 109)
+//@   assigns  fc.Size, fc.Type, fc.Tag, fc.Pkt, fc.Buf[0:7]
+
+//@ func PackRopen(fc, qid, iounit) (err)
+//@   property C01
+//@   requires fc != nil && qid != nil
+//@   ensures  err == nil <==> len(fc.Buf) >= 24
+//@   ensures  err == nil ==> hdr(fc, 24, 113) && wqid(fc.Pkt, 7, qid) && u32le(fc.Pkt, 20) == iounit && qideq(fc.Qid, qid) && fc.Iounit == iounit
+//@   assigns  fc.Size, fc.Type, fc.Tag, fc.Pkt, all(fc.Qid), fc.Iounit, fc.Buf[0:24]
+
+//@ func PackRcreate(fc, qid, iounit) (err)
+//@   property C01
+//@   requires fc != nil && qid != nil
+//@   ensures  err == nil <==> len(fc.Buf) >= 24
+//@   ensures  err == nil ==> hdr(fc, 24, 115) && wqid(fc.Pkt, 7, qid) && u32le(fc.Pkt, 20) == iounit && qideq(fc.Qid, qid) && fc.Iounit == iounit
+//@   assigns  fc.Size, fc.Type, fc.Tag, fc.Pkt, all(fc.Qid), fc.Iounit, fc.Buf[0:24]
+
+//@ func PackRwrite(fc, count) (err)
+//@   property C01
+//@   requires fc != nil
+//@   ensures  err == nil <==> len(fc.Buf) >= 11
+//@   ensures  err == nil ==> hdr(fc, 11, 119) && u32le(fc.Pkt, 7) == count && fc.Count == count
+//@   assigns  fc.Size, fc.Type, fc.Tag, fc.Pkt, fc.Count, fc.Buf[0:11]
+
+//@ func PackRclunk(fc) (err)
+//@   property C01
+//@   requires fc != nil
+//@   ensures  err == nil <==> len(fc.Buf) >= 7
+//@   ensures  err == nil ==> hdr(fc, 7, 121)
+//@   assigns  fc.Size, fc.Type, fc.Tag, fc.Pkt, fc.Buf[0:7]
+
+//@ func PackRremove(fc) (err)
+//@   property C01
+//@   requires fc != nil
+//@   ensures  err == nil <==> len(fc.Buf) >= 7
+//@   ensures  err == nil ==> hdr(fc, 7, 123)
+//@   assigns  fc.Size, fc.Type, fc.Tag, fc.Pkt, fc.Buf[0:7]
+
+//@ func PackRwstat(fc) (err)
+//@   property C01
+//@   requires fc != nil
+//@   ensures  err == nil <==> len(fc.Buf) >= 7
+//@   ensures  err == nil ==> hdr(fc, 7, 127)
+//@   assigns  fc.Size, fc.Type, fc.Tag, fc.Pkt, fc.Buf[0:7]
+
+//@ func PackRstat(fc, d, dotu) (err)
+//@   property C01 C12
+//@   requires fc != nil && d != nil && strsok(d) && statsize(d, dotu) <= 65535
+//@   ensures  err == nil <==> len(fc.Buf) >= 9 + statsize(d, dotu)
+//@   ensures  err == nil ==> hdr(fc, 9+statsize(d, dotu), 125) && u16le(fc.Pkt, 7) == statsize(d, dotu) && wstat(fc.Pkt, 9, d, dotu)
+//@   ensures  err == nil ==> direq(fc.Dir, d)
+//@   assigns  fc.Size, fc.Type, fc.Tag, fc.Pkt, all(fc.Dir), fc.Buf[0:9+statsize(d, dotu)]
